@@ -182,7 +182,7 @@ theorem C04_step_along_edge (prog : List Ins) (nexts : List (List Nat)) (h : ins
       exact Or.inr (Or.inr (Or.inr ⟨rfl, ‹_›, rfl⟩))
     · cases hs
   case other name po pu =>
-    exact hadv' (by simp [hop, Op.noFallthrough]) (StepEdge.stepOther_pc s s' name hs)
+    exact hadv' (by simp [hop, Op.noFallthrough]) (StepEdge.stepOther_pc e s s' name hs)
   all_goals
     repeat' split at hs
   all_goals first
